@@ -129,6 +129,53 @@ type ExtP1Profile struct{}
 func (ExtP1Profile) GetName() string             { return ExtP1Name }
 func (ExtP1Profile) GetClaims() psatoken.IClaims { return NewExtP1Claims() }
 
+// ---- a stricter extension of profile 2 whose own rules are reported with the
+// library's "ignorable" sentinels ---------------------------------------------------
+
+const ExtStrictName = "http://example.com/psa-strict/1.0.0"
+
+// ExtStrictClaims makes the boot seed mandatory (reported with the unfiltered
+// getter error, i.e. wrapping ErrMissingOptional) and forbids the VSI
+// (reported as not-in-profile).
+type ExtStrictClaims struct {
+	psatoken.P2Claims
+}
+
+func (o *ExtStrictClaims) Validate() error {
+	if err := psatoken.ValidateClaims(o); err != nil {
+		return err
+	}
+	if _, err := o.GetBootSeed(); err != nil {
+		return fmt.Errorf("boot seed is mandatory in this profile: %w", err)
+	}
+	if _, err := o.GetVSI(); err == nil {
+		return fmt.Errorf("verification service indicator: %w", psatoken.ErrNotInProfile)
+	}
+	return nil
+}
+
+func (o ExtStrictClaims) MarshalCBOR() ([]byte, error) { return encoding.SerializeStructToCBOR(EM, &o) }
+func (o *ExtStrictClaims) UnmarshalCBOR(data []byte) error {
+	return encoding.PopulateStructFromCBOR(DM, data, o)
+}
+func (o ExtStrictClaims) MarshalJSON() ([]byte, error) { return encoding.SerializeStructToJSON(&o) }
+func (o *ExtStrictClaims) UnmarshalJSON(data []byte) error {
+	return encoding.PopulateStructFromJSON(data, o)
+}
+
+func NewExtStrictClaims() psatoken.IClaims {
+	p := eat.Profile{}
+	if err := p.Set(ExtStrictName); err != nil {
+		panic(err)
+	}
+	return &ExtStrictClaims{P2Claims: psatoken.P2Claims{Profile: &p, SwComponents: &psatoken.SwComponents[*psatoken.SwComponent]{}, CanonicalProfile: ExtStrictName}}
+}
+
+type ExtStrictProfile struct{}
+
+func (ExtStrictProfile) GetName() string             { return ExtStrictName }
+func (ExtStrictProfile) GetClaims() psatoken.IClaims { return NewExtStrictClaims() }
+
 // ---- registration ------------------------------------------------------------------
 
 var registered = map[string]bool{}
@@ -146,6 +193,8 @@ func Register(names ...string) error {
 			p = ExtP2Profile{}
 		case ExtP1Name:
 			p = ExtP1Profile{}
+		case ExtStrictName:
+			p = ExtStrictProfile{}
 		default:
 			return errors.New("unknown extension profile " + n)
 		}
